@@ -118,3 +118,26 @@ def _refs(e, env):
     out = []
     walk(e, lambda x: out.append(x) if x.get("k") == "Ref" else None)
     return out
+
+
+def return_cases(fn, inl=None):
+    """[(sorted canonical condition texts, canonical value text)] over the return statements of fn, a `c ? a : b` in a returned
+    expression split into two cases: `if (c) return a; return b;` and `return c ? a : b;` give the same cases"""
+    import astu
+    rets = []
+    walk(fn["body"], lambda n: rets.append(n) if n.get("k") == "Return" and n.get("e") is not None else None)
+    out = []
+
+    def split(e, conds):
+        s = strip_all(e)
+        if inl and s.get("k") == "Ref" and s.get("d") in inl:
+            return split(inl[s["d"]], conds)
+        if s.get("k") == "Cond":
+            split(s["a"], conds + [astu.C(astu.txt(l, inl)) for l in astu.literals(s["c"])])
+            split(s["e"], conds + [astu.C(astu.txt(l, inl)) for l in astu.negate(s["c"])])
+            return
+        out.append((sorted(set(conds)), astu.C(astu.txt(e, inl))))
+    for r in rets:
+        base = [astu.C(astu.txt(l, inl)) for l in reach(fn["body"], r)]
+        split(r["e"], base)
+    return sorted(out)
